@@ -143,6 +143,8 @@ class FakeStream(object):
         pass
 
     def close(self, *a, **k):
+        if self.closed:
+            return
         self.closed = True
         self.sim.exited = True          # the control endpoint is gone: the daemon's life is over
         self.sim.rec("close", x="ctrl")
